@@ -8,6 +8,10 @@ A *case* is {kind, data, items, src}; a *strategy* is a dict
   {"s": "threads",     "cuts": [...], "n": n}            num_threads = n on every transform
   {"s": "shards",      "cuts": [...], "k": k, "via": "make" | "source"}
   {"s": "interleaved", "cuts": [...]}                    orchestrate.run_pipeline_interleaved, no workers
+  {"s": "sched",       "cuts": [...], "n": n, "chooser": "random"|"pct", "seed": k}
+                       num_threads = n, the real code driven through a seeded schedule by the deterministic
+                       scheduler (harness/sched/shim.py): reaches interleavings the OS rarely produces and
+                       reports a deadlock instead of hanging
 
 `cuts[i]` says how item i+1 is attached to what was built from items 0..i:
   "b" same transform (next builder call), "f" a new transform with the SAME name joined by .chain()
@@ -222,7 +226,7 @@ def run_strategy(case, st, mods=None):
   np, transform, io, orchestrate, rolling_stats, base = mods
   cuts, s = st['cuts'], st['s']
   try:
-    if s in ('seq', 'threads'):
+    if s in ('seq', 'threads', 'sched'):
       p = build(case, cuts, st.get('n', 0), mods)
     elif s == 'shards':
       p = build(case, cuts, 0, mods)
@@ -254,6 +258,8 @@ def run_strategy(case, st, mods=None):
         merged = runner.merge_states(states)
         aggs = canon_aggs(runner.get_result(merged), np)
       return dict(err=None, out=[canon_elem(e, case, np) for e in outs], aggs=aggs, nstates=len(states))
+    if s == 'sched':
+      return run_scheduled(case, st, p, mods)
     if s == 'interleaved':
       with orchestrate.run_pipeline_interleaved(p) as runner:
         outs = list(runner.result_queue)
@@ -267,6 +273,39 @@ def run_strategy(case, st, mods=None):
     raise ValueError(s)
   except Exception as e:  # pylint: disable=broad-except
     return dict(err=err_kind(e), phase='run', msg=(str(e) or repr(e.__cause__))[:160])
+
+
+def run_scheduled(case, st, p, mods):
+  """num_threads = n under the deterministic scheduler: the consumer and the pool workers are managed threads."""
+  import random
+  from harness.core import err_kind
+  from harness.sched import shim
+  from ml_metrics._src.utils import iter_utils
+  np = mods[0]
+  rng = random.Random(st['seed'])
+  chooser = (shim.priority_chooser(rng, change_points=3, horizon=400) if st['chooser'] == 'pct'
+             else shim.random_chooser(rng, timeout_weight=0.0))
+  sched = shim.Scheduler(chooser, max_steps=60000)
+  box = {}
+
+  def consumer():
+    try:
+      it = p.make().iterate()
+      outs, ret = drain(it)
+      box['obs'] = dict(err=None, out=[canon_elem(e, case, np) for e in outs],
+                        aggs=canon_aggs(ret.agg_result if ret is not None else None, np))
+    except Exception as e:  # pylint: disable=broad-except
+      box['obs'] = dict(err=err_kind(e), phase='run', msg=(str(e) or repr(e.__cause__))[:160])
+
+  with shim.patched(sched, [iter_utils]):
+    sched.spawn('consumer', consumer)
+    outcome = sched.run()
+  if outcome != 'done':
+    return dict(err='Deadlock' if outcome == 'deadlock' else 'Scheduler:' + str(outcome), phase='run',
+                msg=f'blocked={sched.blocked} steps={sched.steps}')
+  obs = box.get('obs') or dict(err='HarnessError', phase='run', msg='consumer produced nothing')
+  obs['steps'] = sched.steps
+  return obs
 
 
 # ------------------------------------------------------------------ child process with a hard timeout
